@@ -182,8 +182,9 @@ def main():
         app = BaseHandler(G.build(desc, backend))
         try:
             bodies = {}
+            env = {"pydap.buffer_size": rng.choice([1, 2, 3, 5, 7, 8, 13, 64])} if rng.random() < 0.4 else {}
             for ext in ("dds", "dods", "ascii", "das"):
-                res = Request.blank("/.%s?%s" % (ext, ce)).get_response(app)
+                res = Request.blank("/.%s?%s" % (ext, ce), environ=dict(env)).get_response(app)
                 if res.status_int != 200:
                     raise RuntimeError("%s: status %s %s" % (ext, res.status, res.body[:200]))
                 bodies[ext] = res.body
